@@ -2,6 +2,7 @@ package props
 
 import (
 	"fmt"
+	"strings"
 
 	"verifengine/core"
 	"verifengine/x86ref"
@@ -33,6 +34,14 @@ func c18Case(mode int, stmt string, w x86ref.Want, f map[string]string) *core.Ca
 		for _, fl := range v.Fails {
 			if fl.Facet == "minimal_len" || fl.Facet == "model" {
 				keep = append(keep, fl)
+			}
+		}
+		// a prefix that changes nothing (the bytes denote the source instruction once it is dropped) is still the
+		// instruction - only longer than necessary, which is exactly this property's subject
+		if len(keep) == 0 && len(v.Fails) == 1 && v.Fails[0].Facet == "prefix" && strings.HasPrefix(v.Fails[0].Dev, "spurious:") && len(rs[0].Out) > 0 {
+			if min := x86ref.MinLen(w, mode); min > 0 && len(rs[0].Out) > min {
+				keep = append(keep, core.Fail{Facet: "minimal_len", Dev: fmt.Sprintf("len=%d min=%d", len(rs[0].Out), min),
+					Detail: fmt.Sprintf("emitted % X (%d bytes, with a redundant %s prefix); shortest valid encoding has %d bytes", rs[0].Out, len(rs[0].Out), v.Fails[0].Dev[len("spurious:"):], min)})
 			}
 		}
 		if len(keep) == 0 && len(v.Fails) > 0 {
